@@ -52,8 +52,8 @@ Proof.
     + destruct (pi_is_last pi1); [apply Hret|].
       destruct (check_permission m OpenLookup (v_user v)); [|apply Hret]. apply IH; assumption.
     + destruct (pi_is_last pi1); apply Hret.
-    + destruct (Nat.ltb slCountMax (S slc)); [apply Hret|].
-      destruct (pi_is_last pi1 && slmode_eqb slm SlLstat); [apply Hret|].
+    + destruct (pi_is_last pi1 && slmode_eqb slm SlLstat); [apply Hret|].
+      destruct (Nat.ltb slCountMax (S slc)); [apply Hret|].
       destruct (pi_replace_part (v_os v) pi1 link) as [reset pi2].
       apply IH; [exact Hvol|]. destruct reset; assumption.
 Qed.
